@@ -51,7 +51,7 @@ def run(ctx):
                     meta[-1]["catalogue"] = [("other_msg", 0), ("other_len", 0), ("other_pk", 0)] + list(cat)
             jobs.append((("plain", l, seed), exes[(l, "heur")], ops, None, 900 if quick else 3000, meta))
         # forced valuations, one process, commitment reused
-        ks = sorted({0, 1, 2 + rng.below(3), vm - 1 - rng.below(3), vm}) if quick else list(range(0, vm + 1))
+        ks = sorted({0, 1, 2 + rng.below(3), vm - 1 - rng.below(3), vm, vm + 1}) if quick else list(range(0, vm + 2))
         seed = 1 + rng.below(10**9)
         ops = ["seed %d" % seed, "keygen", "setenv SQI_VERIF_H1_REUSE_COMMIT 1", "setenv SQI_VERIF_TRACE 1"]
         meta = []
